@@ -655,6 +655,37 @@ def version_writers(ctx):
     ctx.require(any(norm(x) == 'self.version[::-1]' for x in ast.walk(raw) if isinstance(x, ast.Subscript)), 'transactions:Transaction.raw', 'raw() no longer writes self.version reversed', raw)
 
 
+@PROP.obligation('C06.rawtx-writers', canaries=[
+    mut.replace_expr('wallets', 'Wallet.send', 'transaction.raw()', 'transaction.raw_hex()', 'rawtx stored as hex text'),
+])
+def rawtx_writers(ctx):
+    """Transaction.rawtx holds BYTES (the parser stores the bytes it read; the database column is binary). Every assignment to a `.rawtx`
+    attribute in transactions.py and wallets.py must be bytes-valued: raw(), another object's rawtx, a bytes parameter, to_bytes(...) /
+    bytes.fromhex(...). The dictionary form of a transaction carries 'raw' as hex TEXT (as_dict: raw_hex()), so it must be converted."""
+    n = 0
+    asdict = ctx.repo.func('transactions:Transaction.as_dict')
+    hex_in_dict = any(isinstance(d, ast.Dict) and any(isinstance(k, ast.Constant) and k.value == 'raw' and 'raw_hex' in norm(v) for k, v in zip(d.keys, d.values)) for d in ast.walk(asdict))
+    for modname in ('transactions', 'wallets'):
+        for q, f in ctx.repo.mod(modname).functions.items():
+            for a_ in ast.walk(f):
+                if not (isinstance(a_, ast.Assign) and isinstance(a_.targets[0], ast.Attribute) and a_.targets[0].attr == 'rawtx'):
+                    continue
+                n += 1
+                txt = norm(a_.value)
+                qual = '%s:%s' % (modname, q)
+                ctx.saw('%s: %s = %s' % (qual, norm(a_.targets[0]), txt))
+                v = a_.value
+                if (isinstance(v, ast.Call) and norm(v.func).split('.')[-1] in ('raw', 'to_bytes', 'fromhex')) or (isinstance(v, ast.Attribute) and v.attr in ('rawtx', 'raw')) or \
+                        (isinstance(v, ast.Name) and v.id in ('rawtx', 'raw_bytes')) or (isinstance(v, ast.Constant) and isinstance(v.value, bytes)):
+                    continue
+                if (isinstance(v, ast.Call) and norm(v.func).split('.')[-1] in ('raw_hex', 'hex')) or (isinstance(v, ast.Subscript) and isinstance(v.slice, ast.Constant) and v.slice.value == 'raw' and hex_in_dict):
+                    ctx.violate(qual, '`%s = %s` stores hex text in rawtx, which holds bytes everywhere else' % (norm(a_.targets[0]), txt), a_,
+                                'transaction_import(t.as_dict()) followed by send(): the transaction is broadcast, then storing it raises and the spent outputs stay unspent in the wallet')
+                else:
+                    ctx.unsure('%s: rawtx writer `%s` not recognised' % (qual, txt))
+    ctx.floor(n, 3, 'assignments to a .rawtx attribute')
+
+
 @PROP.obligation('C06.cache-keys')
 def cache_keys(ctx):
     """Memoisation (serialisations and ids): every container that a function both looks up and stores into is found (none exists on the reference tree; a
